@@ -394,7 +394,7 @@ def gen_doc(rng, max_size=40, parsers=None, odd=0.15):
         for _ in range(rng.randint(1, 3)):
             mut.append([
                 rng.randint(0, 60),
-                rng.choice(['class', 'id', 'lang', 'type', 'name', 'data-x', 'dir', 'value', 'href']),
+                rng.choice(['class', 'id', 'lang', 'type', 'type', 'name', 'data-x', 'dir', 'value', 'href']),
                 rng.choice(ODD_VALUES)
             ])
     spec = {'markup': markup, 'parser': parser, 'mut': mut}
@@ -415,9 +415,11 @@ def build_doc(spec):
         soup = bs4.BeautifulSoup(spec['markup'], spec['parser'])
     if spec.get('mut'):
         els = [e for e in soup.descendants if isinstance(e, bs4.Tag)]
+        inputs = [e for e in els if e.name and e.name.lower().endswith('input')]
         if els:
             for i, attr, val in spec['mut']:
-                els[i % len(els)].attrs[attr] = decode_value(val)
+                pool = inputs if (inputs and attr in ('type', 'name', 'value') and i % 3) else els
+                pool[i % len(pool)].attrs[attr] = decode_value(val)
     if spec.get('detach') is not None:
         els = [e for e in soup.descendants if isinstance(e, bs4.Tag)]
         if els:
@@ -489,6 +491,12 @@ _KEEP_ALIVE = []
 def gen_edit(rng):
     r = rng.random()
     i = rng.randint(0, 60)
+    if r < 0.07:
+        # an attribute set through the API to something that is not a string (matchers may raise on it: a natural
+        # exception, which must leave nothing behind)
+        name = rng.choice(['type', 'type', 'type', 'name', 'class', 'lang', 'dir', 'value', 'href', 'id'])
+        # form-related attributes go to an <input> when the tree has one
+        return ['oddattr', i, name, rng.choice(ODD_VALUES), 'input' if name in ('type', 'name', 'value') else None]
     if r < 0.38:
         name, val = rng.choice(EDIT_ATTRS)
         return ['attr', i, name, val]
@@ -565,6 +573,13 @@ def _apply_edit(root, edit):
         return el.extract(), True
     if kind == 'attr':
         el[edit[2]] = edit[3]
+        return True
+    if kind == 'oddattr':
+        if len(edit) > 4 and edit[4]:
+            sub = [e for e in els if e.name and e.name.lower().endswith(edit[4])]
+            if sub:
+                el = sub[edit[1] % len(sub)]
+        el.attrs[edit[2]] = decode_value(edit[3])
         return True
     if kind == 'delattr':
         if isinstance(edit[2], int):
@@ -971,6 +986,13 @@ def numeric_neighbour(rng, pattern):
         return pattern[:m.start()] + ('%+d' % v) + pattern[m.end():]
     v = max(0, int(m.group(4)) + d)
     return pattern[:m.start(4)] + str(v) + pattern[m.end(4):]
+
+
+# namespace-qualified selectors with HTML-only state pseudo-classes (on HTML trees every element is in the XHTML namespace)
+HTML_NS_POOL = [('x|input:default', {'x': NS_XHTML}), ('x|input:checked', {'x': NS_XHTML}), ('h|form h|input:indeterminate', {'h': NS_XHTML}),
+                ('x|*:disabled, x|button', {'x': NS_XHTML}), ('x|input:in-range', {'x': NS_XHTML}), ('x|form :default', {'x': NS_XHTML}),
+                ('x|input:required ~ x|input', {'x': NS_XHTML}), ('s|input:default, x|input', {'x': NS_XHTML, 's': NS_SVG}),
+                ('iframe x|input:default', {'x': NS_XHTML}), ('x|input:read-write', {'x': NS_XHTML})]
 
 
 def feature_key(rng, feat):
